@@ -335,7 +335,11 @@ func c08FrameHandler(r *eng.Run) {
 		err = wsutil.ControlFrameHandler(dst, c08State(r, side))(hdrOf(f), src)
 	case 1:
 		r.SetEntry("HandleControlMessage")
-		err = wsutil.HandleControlMessage(dst, c08State(r, side), wsutil.Message{OpCode: ws.OpCode(f.Op), Payload: append([]byte(nil), f.Payload...)})
+		m := wsutil.Message{OpCode: ws.OpCode(f.Op), Payload: append([]byte(nil), f.Payload...)}
+		err = wsutil.HandleControlMessage(dst, c08State(r, side), m)
+		if !bytes.Equal(m.Payload, f.Payload) {
+			r.FailProp("C17", "caller_slice_modified", "HandleControlMessage (side=%d) changed the payload of the message it was given (%s)", side, frameStr(f))
+		}
 	default:
 		r.SetEntry("HandleControlMessage.Side")
 		m := wsutil.Message{OpCode: ws.OpCode(f.Op), Payload: append([]byte(nil), f.Payload...)}
@@ -343,6 +347,9 @@ func c08FrameHandler(r *eng.Run) {
 			err = wsutil.HandleClientControlMessage(dst, m)
 		} else {
 			err = wsutil.HandleServerControlMessage(dst, m)
+		}
+		if !bytes.Equal(m.Payload, f.Payload) {
+			r.FailProp("C17", "caller_slice_modified", "Handle%sControlMessage changed the payload of the message it was given (%s)", map[bool]string{true: "Client", false: "Server"}[side == ref.Server], frameStr(f))
 		}
 	}
 	what := fmt.Sprintf("%s(%s) side=%d", r.Entry(), frameStr(f), side)
